@@ -39,7 +39,9 @@ def declare_accessors(w, serves):
         'ProjectSignature.get_app_sig', module=SIG, serves=serves,
         params={'self': K.Ref('ProjectSignature'), 'app_id': K.Opt(K.Str), 'required': K.Bool},
         defaults={'required': False}, returns=K.Opt(K.Ref('AppSignature')), pure=True,
-        raises={'MissingSignatureError': 'required'},
+        raises={'MissingSignatureError':
+                'required and not (app_id is not None and some(app_id) in self._app_sigs) and '
+                'forall(self._app_sigs, lambda k: self._app_sigs[k].legacy_app_label != app_id)'},
         abstract={'app_sig = self._app_sigs.get(app_id)': [
             # dict.get(None) on a str-keyed dict finds nothing
             'app_sig = self._app_sigs.get(some(app_id)) if app_id is not None else None']},
@@ -56,6 +58,7 @@ def declare_accessors(w, serves):
             '        some(result).legacy_app_label == app_id)',
             'implies(result is None, not (app_id is not None and some(app_id) in self._app_sigs) and '
             '        forall(self._app_sigs, lambda k: self._app_sigs[k].legacy_app_label != app_id))',
+            'implies(required, result is not None)',
         ])
     w.contract(
         'AppSignature.get_model_sig', module=SIG, serves=serves,
